@@ -40,7 +40,7 @@ def known_findings():
 def trusted_base(m):
     """mechanical scan of everything that goes into Verus for unproved assumptions"""
     tb = []
-    for f in ("prelude.vrs", "indexmap_stub.vrs", "specs.vrs"):
+    for f in ("prelude.vrs", "indexmap_stub.vrs", "serde_stub.vrs", "specs.vrs"):
         txt = open(os.path.join(VERIF, "contracts", f)).read()
         for mm in re.finditer(r"assume_specification[^\[]*\[\s*((?:<\[T\]>)?[^\]]+)\]", txt):
             tb.append("%s: assume_specification %s" % (f, re.sub(r"\s+", " ", mm.group(1).strip())))
